@@ -725,3 +725,21 @@ package leveldb
 //@   requires !sameblock(key, b.data) && !sameblock(value, b.data) && len(key) <= 1099511627776 && len(value) <= 1099511627776 && len(b.data) <= 1099511627776
 //@   ensures [C20:arguments-not-retained] !sameblock(b.data, key) && !sameblock(b.data, value)
 //@   ensures [C20:arguments-not-modified] unchanged(key) && unchanged(value)
+
+// Results of reads are private copies. version.get hands on what tOps.find returned (its value flows through
+// closures called by walkOverlapping: that pass-through is trusted, the two ends are proved).
+//@ func (*tOps).find
+//@   props C20
+//@   safety off
+//@   ensures [C20:result-is-a-private-copy] isnil(rvalue) || freshbase(rvalue)
+//@ func (*version).get
+//@   trusted
+//@   ensures [C20:result-is-a-private-copy] isnil(value) || freshbase(value)
+//@ func memGet
+//@   props C20
+//@   safety off
+//@ func (*DB).get
+//@   props C20
+//@   safety off
+//@   requires seq <= keyMaxSeq
+//@   ensures [C20:result-is-a-private-copy] isnil(value) || freshbase(value)
